@@ -7,7 +7,7 @@ import cobs
 
 PARA_LINES = ['This program is free software', 'you can redistribute it and/or modify', 'it under the terms of the GNU GPL: v2', 'é ü non-ascii words',
               'See /usr/share/common-licenses/GPL-2', 'x', 'a  b', '(c) 2001', 'http://example.org:80/x', '-- dashes --']
-VERB_LINES = ['indented code', ' more indented', 'x = 1;', '. dot first']
+VERB_LINES = ['indented code', ' more indented', 'x = 1;', '. dot first', '.', '..', ' .']
 STATEMENTS = ['2001 Foo Bar', '2001-2003, 2005 Foo <f@x.org>', 'Foo Bar', '(C) 2001 X', '2001, Foo', '1999', '2001-2003 a b c d', 'Copyright Holder Inc.', '2001/2002 X']
 PATTERNS = ['*', 'src/*', 'debian/*', 'a.c', 'doc/*.txt', 'x?y']
 NAMES = ['GPL-2+', 'MIT', 'Apache-2.0', 'GPL-2+ with OpenSSL exception', 'public-domain', 'BSD-3-clause or GPL-2']
